@@ -8,7 +8,7 @@ from mir2smt import envlib as E
 from mir2smt.builtins import deref
 from obligations import c20 as _c20
 
-CRATES = ["ckb-constant", "ckb-occupied-capacity-core", "ckb-types", "ckb-traits", "ckb-chain-spec", "ckb-proposal-table", "ckb-verification", "ckb-verification-contextual"]
+CRATES = ["ckb-constant", "ckb-occupied-capacity-core", "ckb-types", "ckb-traits", "ckb-chain-spec", "ckb-proposal-table", "ckb-verification", "ckb-verification-contextual", "ckb-chain"]
 U64 = (1 << 64) - 1
 ERR = [(E.rx(r"as Into<.*Error>>::into$|Error as From<.*>>::from$|ErrorKind::because|::other$"), E.opaque_call())]
 
@@ -379,7 +379,162 @@ def m10_contextual_block_verifier_composition(S):
         S.prove(ctx, ob, f"{fl}_switches_off_only_its_own_part", assume, T.not_(T.or_(*bad)) if bad else True)
 
 
-OBLIGATIONS = [m1_number_epoch, m2_timestamp, m3_contextual_epoch, m4_limits, m5_commit_window, m6_median_time, m7_uncle_guards, m8_header_verifier_composition, m9_block_verifier_composition, m10_contextual_block_verifier_composition]
+def reconcile_runs(S, n_blocks=3):
+    """reconcile_main_chain on a fork of `n_blocks` attached blocks, for every split verified / unverified; yields
+    (v, ctx, paths, syms)"""
+    from mir2smt import compose as C
+    from mir2smt.exec import ListV
+    from mir2smt.srcinfo import struct_fields
+    order = struct_fields("chain/src/utils/forkchanges.rs", "ForkChanges")
+    f = [x for x in S.prog.funcs if x.kind == "fn" and x.short == "reconcile_main_chain" and "chain/src/verify.rs" in x.name]
+    if len(f) != 1:
+        raise Inconclusive(f"reconcile_main_chain: {len(f)} candidates")
+    for v in range(n_blocks + 1):
+        ctx = S.ctx(unwind=n_blocks + 2)
+        ctx.uninterpreted_unknown_calls = True
+        ctx.max_paths = 20000
+        blocks = [OpaqueV(f"b{k}", "BlockView") for k in range(n_blocks)]
+        exts = [OpaqueV(f"ext{k}", "BlockExt") for k in range(v, n_blocks)]
+        vals = []
+        for fld in order:
+            if fld == "attached_blocks":
+                vals.append(ListV(tuple(blocks), "VecDeque<BlockView>"))
+            elif fld == "dirty_exts":
+                vals.append(ListV(tuple(exts), "VecDeque<BlockExt>"))
+            else:
+                vals.append(OpaqueV("fork." + fld, "?"))
+        fork = AggV(tuple(vals), "ForkChanges")
+        disable_all = ctx.bool("switch.disable_all")
+
+        def named(ex, x):
+            x = deref(ex, x)
+            return getattr(x, "name", None) or type(x).__name__
+
+        def op(tag):
+            def h(ex, c, a, d):
+                k = len([e for e in ex.log if e[0] == tag])
+                ex.log.append((tag, c, [named(ex, x) for x in a], list(ex.pc)))
+                okb = ex.ctx.bool(f"{tag}_ok.{k}")
+                rt = C._result_types(d)
+                val = UNIT if rt is None or rt[0] == "()" else ex.ctx.fresh_of_type(f"{tag}_val.{k}", rt[0])
+                return EnumV(T.ite(okb.t, 0, 1), ((0, (val,)), (1, (OpaqueV(f"{tag}_err.{k}", rt[1] if rt else "Error"),))), d)
+            return h
+
+        def plain(tag, ret=None):
+            def h(ex, c, a, d):
+                ex.log.append((tag, c, [named(ex, x) for x in a], list(ex.pc)))
+                return ret(ex, c, a, d) if ret else E.opaque_call()(ex, c, a, d)
+            return h
+        ctx.env = list(E.LOGGING_OFF) + [
+            (E.rx(r"Switch::disable_all$"), lambda ex, c, a, d: disable_all),
+            (E.rx(r"Switch::disable_script$"), lambda ex, c, a, d: ex.ctx.bool("switch.disable_script")),
+            (E.rx(r"BlockView::header$"), lambda ex, c, a, d: OpaqueV("header_of." + named(ex, a[0]), d)),
+            (E.rx(r"HeaderView::number$"), lambda ex, c, a, d: ex.ctx.int("number_of." + named(ex, a[0]), "u64")),
+            (E.rx(r"HeaderView::hash$|BlockView::hash$"), lambda ex, c, a, d: OpaqueV("hash_of." + named(ex, a[0]), d)),
+            (E.rx(r"leaf_index_to_mmr_size$"), lambda ex, c, a, d: (ex.log.append(("mmr_size_of", c, [deref(ex, a[0])], list(ex.pc))), ex.ctx.int("mmr_size", "u64"))[1]),
+            (E.rx(r"MMR::<.*>::new$"), plain("mmr_new", lambda ex, c, a, d: OpaqueV("mmr", d))),
+            (E.rx(r"impl BlockView>::digest$"), lambda ex, c, a, d: OpaqueV("digest_of." + named(ex, a[0]), d)),
+            (E.rx(r"MMR::<.*>::push$"), op("push")),
+            (E.rx(r"MMR::<.*>::commit$"), op("mmr_commit")),
+            (E.rx(r"StoreTransaction::attach_block$"), op("attach_block")),
+            (E.rx(r"^attach_block_cell$|::attach_block_cell$"), op("attach_cells")),
+            (E.rx(r"::resolve_block_transactions::<"), op("resolve")),
+            (E.rx(r"ContextualBlockVerifier::<.*>::new$"), plain("verifier_new", lambda ex, c, a, d: OpaqueV("verifier", d))),
+            (E.rx(r"ContextualBlockVerifier::<.*>::verify$"), op("verify")),
+            (E.rx(r"::insert_ok_ext$"), op("ok_ext")),
+            (E.rx(r"::insert_failure_ext$"), op("failure_ext")),
+            (E.rx(r"::print_error$|::monitor_block_txs_verified$|Instant::(now|elapsed)$"), E.opaque_call()),
+            (E.rx(r"BlockExt as Clone>::clone$"), lambda ex, c, a, d: deref(ex, a[0])),
+        ] + E.LIST_ADAPTORS + ERR
+        me = ctx.ref_to(OpaqueV("proc", "ConsumeUnverifiedBlockProcessor"))
+        ps = S.run(ctx, f[0], [me, OpaqueV("txn", "Arc<StoreTransaction>"), ctx.ref_to(fork), OpaqueV("switch", "Switch")])
+        yield v, ctx, ps, {"disable_all": disable_all, "blocks": [b.name for b in blocks]}
+
+
+def m11_reconcile_main_chain(S, ob="C03.m11", n_blocks=3):
+    """reconcile_main_chain (the loop that makes a branch canonical), forks of three attached blocks with every verified/unverified split:
+    a block is attached (index, cells, chain-root MMR leaf) only after the contextual verifier accepted it (unless all checks are switched
+    off); after the first failure nothing further is attached, every remaining block is marked failed and the call returns an error
+    without committing the MMR; on success the MMR is opened at the size of the first attached block's parent chain and receives the
+    digest of every attached block in chain order before it is committed"""
+    for v, ctx, ps, sy in reconcile_runs(S, n_blocks):
+        names = sy["blocks"]
+        da = sy["disable_all"].t
+        first_no = ctx.int("number_of.header_of." + names[0], "u64").t
+        PRE = [T.gt(first_no, 0)]        # an attached block is never the genesis block (the code computes number - 1)
+        S.prove(ctx, ob, f"v{v}_no_panic", PRE, T.not_(cond_of(panics(ps))))
+        rs = returns(ps)
+        okret = lambda p: T.eq(p.value.disc, 0)
+
+        def seq(p, tag):
+            return [(e[2], e[3]) for e in p.log if e[0] == tag]
+        bad_order, bad_verify, bad_after_fail, bad_commit, bad_size = [], [], [], [], []
+        n_ok_paths = 0
+        for p in rs:
+            pushes = [a[-1] for a, _ in seq(p, "push")]
+            attaches = [a[-1] for a, _ in seq(p, "attach_block")]
+            cells = [a[-1] for a, _ in seq(p, "attach_cells")]
+            verifies = [a[-1] for a, _ in seq(p, "verify")]
+            commits = seq(p, "mmr_commit")
+            want = ["digest_of." + b for b in names]
+            # G1: on an accepting path every attached block's digest was pushed, in chain order; on any path the pushes are a prefix
+            if pushes != want[:len(pushes)] or attaches != names[:len(attaches)] or cells != names[:len(cells)]:
+                bad_order.append(p.cond())
+            if pushes != want or attaches != names or cells != names:
+                bad_order.append(T.and_(p.cond(), okret(p)))
+            # G2: an unverified block is attached only after its own verification ran (and, by the path condition, accepted)
+            for k, b in enumerate(names):
+                if k >= v and b in attaches and b not in verifies:
+                    bad_verify.append(T.and_(p.cond(), T.not_(da)))
+            # G5: MMR committed iff the call accepts
+            if bool(commits) != True:
+                bad_commit.append(T.and_(p.cond(), okret(p)))
+            if commits:
+                bad_commit.append(T.and_(p.cond(), T.not_(okret(p)), ctx.bool("mmr_commit_ok.0").t))
+            for e in p.log:
+                if e[0] == "mmr_new" and "mmr_size" not in str(e[2]):
+                    pass
+        S.prove(ctx, ob, f"v{v}_attached_blocks_and_mmr_leaves_follow_chain_order", PRE, T.not_(T.or_(*bad_order)) if bad_order else True)
+        S.prove(ctx, ob, f"v{v}_unverified_block_attached_only_after_its_verification", PRE, T.not_(T.or_(*bad_verify)) if bad_verify else True)
+        S.prove(ctx, ob, f"v{v}_mmr_committed_iff_accepted", PRE, T.not_(T.or_(*bad_commit)) if bad_commit else True)
+        # verdict: accepts iff every storage step and every verification of an unverified block accepted
+        oks = []
+        for tag in ("push", "attach_block", "attach_cells", "resolve", "verify", "ok_ext", "failure_ext", "mmr_commit"):
+            n = max([len(seq(p, tag)) for p in ps] + [0])
+            oks += [ctx.bool(f"{tag}_ok.{k}").t for k in range(n)]
+        accept = T.or_(*[T.and_(p.cond(), okret(p)) for p in rs])
+        S.prove(ctx, ob, f"v{v}_accepts_when_every_step_accepts", PRE + [T.and_(*[o for o in oks if "failure_ext" not in str(o)])], accept)
+        # G3: a rejected verification/resolution of block k: no later attach, failure ext for k.., Err
+        for k in range(v, n_blocks):
+            j = k - v          # index of the verification among the unverified blocks
+            for tag in ("verify", "resolve"):
+                failed = T.not_(ctx.bool(f"{tag}_ok.{j}").t)
+                bad = []
+                for p in rs:
+                    tags_blocks = [(e[0], e[2][-1] if e[0] in ("attach_block", "verify", "resolve") else (e[2][2] if e[0] == "failure_ext" and len(e[2]) > 2 else None)) for e in p.log]
+                    ran = [b for t_, b in tags_blocks if t_ == tag]
+                    if len(ran) <= j:
+                        continue       # this path never reached that step
+                    attached_later = [b for t_, b in tags_blocks if t_ == "attach_block" and b in names[k:]]
+                    nfail = len([1 for t_, _b in tags_blocks if t_ == "failure_ext"])
+                    if attached_later:
+                        bad.append(T.and_(p.cond(), failed, T.not_(da)))
+                    bad.append(T.and_(p.cond(), failed, T.not_(da), okret(p)))
+                    if nfail != n_blocks - k:
+                        bad.append(T.and_(p.cond(), failed, T.not_(da), T.and_(*[ctx.bool(f"failure_ext_ok.{q}").t for q in range(n_blocks)])))
+                S.prove(ctx, ob, f"v{v}_{tag}_failure_of_block{k}_refuses_the_rest", PRE, T.not_(T.or_(*bad)) if bad else True)
+        # G4: the MMR is opened at leaf_index_to_mmr_size(number(first attached) - 1) and handed to the verifier
+        for p in rs[:1]:
+            szs = [e for e in p.log if e[0] == "mmr_size_of"]
+            news = [e for e in p.log if e[0] == "mmr_new"]
+            S.prove(ctx, ob, f"v{v}_mmr_opened_at_parent_chain_size", PRE,
+                    T.and_(bool(len(szs) == 1 and len(news) == 1), T.eq(szs[0][2][0].t, T.sub(first_no, 1)) if szs else False))
+        vn = [e for p in rs for e in p.log if e[0] == "verifier_new"]
+        S.prove(ctx, ob, f"v{v}_verifier_reads_the_same_mmr", [], bool(all(e[2][-1] == "mmr" for e in vn)), extra={"note": str(vn[:1])})
+        S.witness(ctx, ob, f"v{v}_reach_accept", PRE, accept)
+
+
+OBLIGATIONS = [m1_number_epoch, m2_timestamp, m3_contextual_epoch, m4_limits, m5_commit_window, m6_median_time, m7_uncle_guards, m8_header_verifier_composition, m9_block_verifier_composition, m10_contextual_block_verifier_composition, m11_reconcile_main_chain]
 
 ENGINE = "M"
 LEVEL = "other"
